@@ -5,7 +5,7 @@ from __future__ import annotations
 from typing import Any, Dict, Iterator, List, Optional, Set, Tuple
 
 from ..loader import FuncInfo, Program
-from ..flow import Event, Summary, summarise
+from ..flow import Event, Summary, spliced as summarise
 from ..types import Typer, Type, ANY
 from .. import terms as T
 from ..terms import Term
